@@ -439,7 +439,13 @@ const XMLCh* DOMNodeImpl::lookupPrefix(const XMLCh* namespaceURI) const {
         return lookupPrefix(namespaceURI, (DOMElement*)thisNode);
     }
     case DOMNode::DOCUMENT_NODE:{
-        return ((DOMDocument*)thisNode)->getDocumentElement()->lookupPrefix(namespaceURI);
+        {
+            // a document without a document element knows no namespaces
+            DOMElement* docElem = ((DOMDocument*)thisNode)->getDocumentElement();
+            if (!docElem)
+                return 0;
+            return docElem->lookupPrefix(namespaceURI);
+        }
     }
 
     case DOMNode::ENTITY_NODE :
@@ -577,7 +583,13 @@ const XMLCh* DOMNodeImpl::lookupNamespaceURI(const XMLCh* specifiedPrefix) const
         return 0;
     }
     case DOMNode::DOCUMENT_NODE : {
-        return((DOMDocument*)thisNode)->getDocumentElement()->lookupNamespaceURI(specifiedPrefix);
+        {
+            // a document without a document element knows no namespaces
+            DOMElement* docElem = ((DOMDocument*)thisNode)->getDocumentElement();
+            if (!docElem)
+                return 0;
+            return docElem->lookupNamespaceURI(specifiedPrefix);
+        }
     }
     case DOMNode::ENTITY_NODE :
     case DOMNode::NOTATION_NODE:
@@ -1002,7 +1014,13 @@ bool DOMNodeImpl::isDefaultNamespace(const XMLCh* namespaceURI) const {
         return false;
     }
     case DOMNode::DOCUMENT_NODE:{
-        return ((DOMDocument*)thisNode)->getDocumentElement()->isDefaultNamespace(namespaceURI);
+        {
+            // a document without a document element knows no namespaces
+            DOMElement* docElem = ((DOMDocument*)thisNode)->getDocumentElement();
+            if (!docElem)
+                return false;
+            return docElem->isDefaultNamespace(namespaceURI);
+        }
     }
 
     case DOMNode::ENTITY_NODE :
